@@ -24,3 +24,11 @@ Theorem C06_listen_worker_ends_with_spec_output : forall svc chunks fuel, (2 * l
 Proof. exact src_worker_spec. Qed.
 Print Assumptions C06_listen_worker_ends_with_spec_output.
 Check truncated_message_spins. Check malformed_then_answered.
+
+(* tie: the functions this property's model describes by hand (not by translation) still have the pinned text; an
+   edit to one of them breaks this obligation and sends the check searching for a failing input *)
+From VL Require Import ShapeFacts.
+From VLG Require Import ShapeGen.
+Theorem C06_modelled_code_is_the_pinned_text : shapes_for_C06 = true.
+Proof. exact shapes_C06_ok. Qed.
+Print Assumptions C06_modelled_code_is_the_pinned_text.
